@@ -370,6 +370,10 @@ def _py_expr(e, names):
         inner = _py_expr(e["e"], names)
         bits = {"u8": 8, "u16": 16, "u32": 32, "u64": 64, "usize": 64}.get(e["ty"].replace(" ", ""))
         return None if inner is None or bits is None else "((%s) & %d)" % (inner, (1 << bits) - 1)
+    if k == "Call" and len(e.get("args", [])) == 1 and re.fullmatch(r"(u8|u16|u32|u64|usize|i32|i64)::from", (e.get("f") or {}).get("path", "")):
+        return _py_expr(e["args"][0], names)  # a widening conversion: the number itself
+    if k == "MethodCall" and e["m"] == "into" and not e["args"]:
+        return _py_expr(e["recv"], names)
     if k == "Binary" and e["op"] in ("+", "-", "|", "&", "^", "<<", ">>", "*"):
         l, r = _py_expr(e["l"], names), _py_expr(e["r"], names)
         return None if l is None or r is None else "((%s) %s (%s))" % (l, e["op"], r)
